@@ -103,6 +103,11 @@ func (n *c20Notifier) Notify(ctx context.Context, alerts ...*types.Alert) (bool,
 	n.recs = append(n.recs, rec)
 	n.active++
 	n.mu.Unlock()
+	// like the Slack integration (thread id, channel id) every attempt notes something in the receiver data of the
+	// flush; only a successful delivery may make it reach the notification log
+	if store, ok := notify.NflogStore(ctx); ok {
+		store.SetStr("attempt", fmt.Sprintf("%d@%v", idx, rec.Start))
+	}
 
 	cut := false
 	switch {
